@@ -1,12 +1,15 @@
 (* C05 - Completion: no deadlock and no internal scheduling error.
    Proved: (a) safety - the internal errors "cannot progress backwards" and "has already progressed" are unreachable
    from the initial state of every scenario with static_ok tables, for every behaviour and interleaving.
-   Not proved here (C05_partial): (b) progress (some step is enabled whenever nothing is in flight and not all
-   simulators are done) and (c) termination; they are checked on the implementation by the quiescence test of the
-   trace validation (deadlock detector) and on the model by "no enabled BEGIN at quiescence". *)
+   (b) progress (deadlock-freedom) for flat scenarios (no groups): whenever nothing is in flight and some simulator is
+   not done, a START or BEGIN event is accepted (C05_progress_flat; the premise flat_certified is decided per scenario
+   by the extracted checker).
+   Not proved (C05_partial): progress for scenarios with groups, and (c) termination; they are checked on the
+   implementation by the quiescence test of the trace validation (deadlock detector) and on the model by "no enabled
+   BEGIN at quiescence".  For non-convex group scenarios progress is false under lazy stepping (known finding F21). *)
 From Coq Require Import ZArith List Bool Arith.
 Import ListNotations.
-From MV Require Import Time.Spec Sched.Timing Sched.Inv Sched.Init Sched.Wle Sched.Main Sched.Guards Sched.Final Static.Groups Static.Connect Static.Build Sched.Plane Sched.Link Sched.Certify.
+From MV Require Import Time.Spec Sched.Timing Sched.Inv Sched.Init Sched.Wle Sched.Main Sched.Guards Sched.Final Sched.Live Sched.Progress Sched.Quiet Static.Groups Static.Connect Static.Build Sched.Plane Sched.Link Sched.Certify.
 Open Scope Z_scope.
 
 Theorem C05_partial_never_progresses_backwards : forall st, static_ok st -> forall s e i,
@@ -37,3 +40,31 @@ Example C05_nonvacuous :
                    [mkConn 0 1 2 1 f false 0] [] 5 100 true true in
   match prepare 100 sc with Prepared st dt t anc => check_static sc t anc | _ => false end = true.
 Proof. vm_compute. reflexivity. Qed.
+
+(* (b) deadlock-freedom of flat scenarios, for every behaviour and interleaving: a reachable state in which nothing is
+   in flight and some simulator is not done accepts a START or BEGIN event *)
+Theorem C05_progress_flat : forall st, static_ok st -> flat_certified st = true ->
+  forall s, reached st s -> Quiet s -> (exists i, (i < nsims st)%nat /\ pc (s i) <> Done) ->
+  exists e s', start_or_begin st e /\ apply st s e = Ok s'.
+Proof. exact certified_flat_progress. Qed.
+Print Assumptions C05_progress_flat.
+
+(* non-vacuity: the scenario above is flat-certified, and after both simulators have been started the state is
+   reachable and quiet, and A waits for its step at time 0 *)
+Example C05_progress_nonvacuous :
+  let f := mkF true true false true true 0 false false true in
+  let sc := mkScen [None] (fun _ => 0%nat) (fun i => if Nat.eqb i 0 then TimeBased else EventBased) 2
+                   [mkConn 0 1 2 1 f false 0] [] 5 100 true true in
+  match prepare 100 sc with
+  | Prepared st dt t anc =>
+      flat_certified st = true /\
+      exists s, reached st s /\ Quiet s /\ pc (s 0%nat) = WaitDeps [0] /\ (0 < nsims st)%nat
+  | _ => False end.
+Proof.
+  vm_compute prepare. split; [vm_compute; reflexivity|].
+  match goal with |- exists s, reached ?st s /\ _ => set (st0 := st) end.
+  destruct (run st0 (init_state st0) [EvStart 0; EvStart 1]) as [l|] eqn:E; [|vm_compute in E; discriminate].
+  exists (List.last l (init_state st0)). split; [exists [EvStart 0; EvStart 1], l; split; [exact E|reflexivity]|].
+  vm_compute in E. injection E as <-. split; [|split; [vm_compute; reflexivity|vm_compute; apply le_S, le_n]].
+  intros j. destruct j as [|[|j]]; vm_compute; reflexivity.
+Qed.
